@@ -18,10 +18,10 @@ import (
 )
 
 // the guards each simulated deviation is aimed at (the twin measures what actually fails)
-var pcAliceDevs = []string{"none", "z_range", "s_range", "z_unit", "u_unit", "s1_ge_q", "s2_ge_q", "s_ne_1", "z_ne_1", "s1_ne_s2", "s1_le_q3", "c_unit", "u_range", "w_range"}
-var pcBobDevs = []string{"none", "z_range", "zp_range", "t_range", "v_range", "w_range", "s_range", "z_unit", "t_unit", "s_unit", "s1_ge_q", "s2_ge_q", "t1_ge_q", "t2_ge_q", "s1_le_q3", "t1_le_q7", "s_zero"}
+var pcAliceDevs = []string{"none", "z_range", "s_range", "z_unit", "u_unit", "s1_ge_q", "s2_ge_q", "s_ne_1", "z_ne_1", "s1_ne_s2", "s1_le_q3", "c_unit", "u_range", "w_range", "eqU", "eqW"}
+var pcBobDevs = []string{"none", "z_range", "zp_range", "t_range", "v_range", "w_range", "s_range", "z_unit", "t_unit", "s_unit", "s1_ge_q", "s2_ge_q", "t1_ge_q", "t2_ge_q", "s1_le_q3", "t1_le_q7", "s_zero", "eqZ", "eqT", "eqV"}
 var pcBobWCDevs = []string{"X_valid", "U_valid", "s1_modq_nz", "point_mismatch"}
-var pcFacDevs = []string{"none", "z1_range", "z2_range", "z1_range+1", "z2_far", "z1_negative"}
+var pcFacDevs = []string{"none", "z1_range", "z2_range", "z1_range+1", "z2_far", "z1_negative", "eq1", "eq2", "eq3"}
 
 func (g *pcToyGen) between(lo, hi *big.Int) *big.Int { // [lo, hi]
 	d := new(big.Int).Sub(hi, lo)
@@ -86,6 +86,10 @@ func (g *pcToyGen) simAlice(ms pcMtaSet, dev string) *pcLine {
 			I["u"] = new(big.Int).Add(I["u"], N2)
 		case "w_range":
 			I["w"] = new(big.Int).Add(I["w"], ms.NT)
+		case "eqU": // another unit with the same residue modulo N: only the equation modulo N^2 fails
+			I["u"] = pcMul(N2, I["u"], new(big.Int).Add(ms.N, pc1))
+		case "eqW":
+			I["w"] = pcMul(ms.NT, I["w"], ms.H1)
 		}
 		return t
 	})
@@ -185,6 +189,12 @@ func (g *pcToyGen) simBob(ms pcMtaSet, wc bool, dev string) *pcLine {
 			I["v"] = new(big.Int).Add(I["v"], N2)
 		case "w_range":
 			I["w"] = new(big.Int).Add(I["w"], ms.NT)
+		case "eqZ":
+			I["zp"] = pcMul(ms.NT, I["zp"], ms.H1)
+		case "eqT":
+			I["w"] = pcMul(ms.NT, I["w"], ms.H1)
+		case "eqV": // same residue modulo N, another one modulo N^2
+			I["v"] = pcMul(N2, I["v"], new(big.Int).Add(ms.N, pc1))
 		case "point_mismatch":
 			t.P["X"] = ms.Cv.G.Add(t.P["X"], ms.Cv.G.Gen()) // after U was solved for the other point
 			if t.P["X"].Inf {
@@ -229,6 +239,14 @@ func (g *pcToyGen) simFac(ms pcMtaSet, dev string) *pcLine {
 		}
 		if !pcSolveFac(t, e) {
 			return nil
+		}
+		switch dev {
+		case "eq1":
+			I["A"] = pcMul(ms.NT, I["A"], ms.H1)
+		case "eq2":
+			I["B"] = pcMul(ms.NT, I["B"], ms.H1)
+		case "eq3":
+			I["T"] = pcMul(ms.NT, I["T"], ms.H1)
 		}
 		return t
 	})
